@@ -8,7 +8,8 @@
   `ret=<code>` for setstr / cmd / setcues, `meta …` for getmeta (channel map is not modelled: `chmap=?`).
 -/
 import SfModel.Meta
-open Sf Sf.Meta
+import SfModel.MetaX
+open Sf Sf.Meta Sf.MetaX
 namespace MetaCmd
 
 def kvOf (toks : List String) (key : String) : Option String :=
@@ -80,10 +81,43 @@ structure St where
   sr : Nat := 0
   closed : Bool := false
   supported : Bool := false
+  chmap : Option (List Nat × Nat) := none      -- AIFF / CAF: the stored channel map and its layout tag
 
 def strTypes : List Nat := [1, 2, 3, 4, 5, 6, 7, 8, 9, 16]
 
+/-- the (type, text) pairs an AIFF / CAF file hands to psf_store_string on re-open -/
+def xStrings (st : St) : List (Nat × List Byte) :=
+  let h := st.h
+  let startE := if (h.strings.flags &&& SF_STR_LOCATE_START) ≠ 0 then entriesOf h.strings SF_STR_LOCATE_START else []
+  let endE := if (h.strings.flags &&& SF_STR_LOCATE_END) ≠ 0 then entriesOf h.strings SF_STR_LOCATE_END else []
+  if h.cont = .aiff then
+    let a := aiffStrings startE
+    let b := aiffStrings endE
+    aiffParse (a.length + 1) a ++ aiffParse (b.length + 1) b
+  else
+    -- caf_close pads an odd data end with a byte the chunk walk of caf_read_header does not expect: the trailing info is lost
+    readCafInfo (writeCafInfo startE) ++ (if h.audio.length % 2 = 1 then [] else readCafInfo (writeCafInfo endE))
+
+def xMetaLine (st : St) : String :=
+  let h := st.h
+  let tab := loadAll (xStrings st)
+  let strs := strTypes.map fun (ty : Nat) =>
+    " s" ++ toString ty ++ "=" ++ (match get tab (ty : Int) with | some s => hexBytes s | none => "null")
+  let cues : Option (List Cue) :=
+    if h.cont = .aiff ∧ h.inst.isNone then
+      h.cues.bind fun cs => (readMarks (writeMarks (cs.map markOfCue))).map fun ms => ms.map cueOfMark
+    else none
+  let cuesS := match cues with
+    | some cs => " cuecount=1:" ++ toString cs.length ++ " cues=1:" ++ toString cs.length ++ ":" ++ ",".intercalate (cs.map tokOfCue)
+    | none => " cuecount=0:0 cues=0:"
+  let chm : Option (List Nat) := match st.chmap with
+    | some (_, tag) => if tag = 0 then none else readChan (h.cont = .caf) st.ch (be4 tag)
+    | none => none
+  let chmS := match chm with | some m => "1:" ++ hexBytes (m.flatMap le4) | none => "0:"
+  "meta" ++ String.join strs ++ " bext=0: cart=0:" ++ cuesS ++ " inst=0: chmap=" ++ chmS ++ " err=0"
+
 def metaLine (st : St) : String :=
+  if st.h.cont = .aiff ∨ st.h.cont = .caf then xMetaLine st else
   let r := reopen 0 st.h
   let tab := loadAll r.strings
   let strs := strTypes.map fun (ty : Nat) =>
@@ -109,7 +143,7 @@ def runLine (pkgName pkgVersion : List Byte) (st : St) (line : String) : St × O
     let c := containerOf fmt
     let le := fmt / 0x10000000 % 4 = 0 ∨ fmt / 0x10000000 % 4 = 1
     ({ h := MetaState.open c, fmt := fmt, ch := ((kvOf toks "ch").getD "0").toNat?.getD 0, sr := ((kvOf toks "sr").getD "0").toNat?.getD 0,
-       supported := (c = .wav ∨ c = .wavex ∨ c = .rf64) ∧ le }, none)
+       supported := ((c = .wav ∨ c = .wavex ∨ c = .rf64) ∧ le) ∨ c = .aiff ∨ c = .caf }, none)
   | "setstr" :: "h0" :: ty :: rest =>
     match rest with
     | [] | "null" :: _ => (st, some ("ret=" ++ toString SFE_STR_BAD_STRING))
@@ -137,6 +171,13 @@ def runLine (pkgName pkgVersion : List Byte) (st : St) (line : String) : St × O
       else
         let r := step pkgName pkgVersion st.h (.setInst (instOfStruct blob))
         ({ st with h := r.2 }, some ("ret=" ++ toString r.1))
+    else if id = 0x1101 ∧ (st.h.cont = .aiff ∨ st.h.cont = .caf) then
+      if st.h.haveWritten ∨ isNull ∨ size ≠ 4 * st.ch then (st, some "ret=0")
+      else
+        let map := (List.range st.ch).map fun k => u blob (4 * k) 4
+        match setChannelMap st.ch map with
+        | none => (st, some "ret=0")
+        | some (r, m, tag) => ({ st with chmap := some (m, tag) }, some ("ret=" ++ toString r))
     else (st, none)
   | "setcues" :: "h0" :: _ :: rest =>
     let cs := match rest with | [] => [] | t :: _ => if t = "" then [] else (t.splitOn ",").map cueOfTok
